@@ -111,12 +111,21 @@ def monitors():
 def design_variants():
     def violated(out):
         return "is violated" in out or "Deadlock reached" in out
-    body = ('---- MODULE SelfMod ----\nEXTENDS ModLoad\nMCCfgs == {[loads |-> [p1 |-> <<"m1">>, p2 |-> <<"m1">>, m1 |-> <<"m2">>, m2 |-> <<>>], roots |-> <<"p1","p2">>, bad |-> <<>>]}\n====\n')
+    body = ('---- MODULE SelfMod ----\nEXTENDS ModLoad\nMCCfgs == {[loads |-> [p1 |-> <<"m1">>, p2 |-> <<"m1">>, m1 |-> <<"m2">>, m2 |-> <<>>], roots |-> <<"p1","p2">>, bad |-> <<>>, nofetch |-> <<>>]}\n====\n')
     for walk, want in (("current", True), ("fixed", False)):
         cfg = 'SPECIFICATION Spec\nCONSTANTS\n  Cfgs <- MCCfgs\n  Walk = "%s"\n  EnvFail = "done"\nINVARIANTS NoViolation OnceOnly\nPROPERTY Termination\nCHECK_DEADLOCK TRUE\n' % walk
         rc, out, _ = vlib.tlc(os.path.join(S, "modload"), "SelfMod", cfg="SelfMod.cfg", workers=4, timeout=300, files={"SelfMod.tla": body, "SelfMod.cfg": cfg})
-        ok("modload: TLC %s a deadlock on the acyclic shared-helper project with Walk = %s" % ("finds" if want else "finds no", walk), violated(out) == want)
+        ok("modload: TLC %s a deadlock on the acyclic shared-helper project with Walk = %s" % ("finds" if want else "finds no", walk),
+           violated(out) == want and (want or "No error has been found" in out))
     import fam_build
+    for mark, want in (("none", True), ("started", False)):
+        fam_build.MARK = mark
+        body = "---- MODULE SelfMark ----\nEXTENDS Build\nMCCfgs == {" + fam_build.cfg_to_tla("chain", "runs") + "}\n====\n"
+        cfg = ("SPECIFICATION Spec\nCONSTANTS\n  Cfgs <- MCCfgs\n  MaxEdits = 2\n  MaxBuilds = 3\n  MaxCrashes = 1\n  MaxFails = 0\n  MaxGCs = 0\n"
+               "INVARIANTS NoViolation\nVIEW View\nCHECK_DEADLOCK FALSE\n")
+        rc, out, _ = vlib.tlc(os.path.join(S, "build"), "SelfMark", cfg="SelfMark.cfg", workers=8, timeout=900, heap="6g", files={"SelfMark.tla": body, "SelfMark.cfg": cfg})
+        ok("build: TLC %s the edit / death after the body / undo staleness with mark = %s" % ("finds" if want else "does not find", mark), violated(out) == want)
+    fam_build.MARK = "started"
     for stamp, want in (("env", True), ("runs", False)):
         b = "---- MODULE SelfBuild ----\nEXTENDS Build\nMCCfgs == { %s }\n====\n" % fam_build.cfg_to_tla("chain", stamp)
         cfg = "SPECIFICATION Spec\nCONSTANTS\n  Cfgs <- MCCfgs\n  MaxEdits = 1\n  MaxBuilds = 3\n  MaxCrashes = 0\n  MaxFails = 0\n  MaxGCs = 0\nINVARIANT NoViolation\nVIEW View\nCHECK_DEADLOCK FALSE\n"
